@@ -39,7 +39,15 @@ Match(exp, obs) ==
       [] exp.k = "b"   -> IF obs.k = "b" /\ obs.x = exp.x THEN "ok" ELSE "bad"
       [] OTHER         -> "bad"
 
+\* two plain numbers: ordinary exact arithmetic (no library call involved)
+NumBin(op, x, y) ==
+    CASE op = "Add" -> Guard(SAdd(x.a, y.a), NumV(SAdd(x.a, y.a)))
+      [] op = "Sub" -> Guard(SSub(x.a, y.a), NumV(SSub(x.a, y.a)))
+      [] op = "Mul" -> Guard(SMul(x.a, y.a), NumV(SMul(x.a, y.a)))
+      [] op = "Div" -> IF y.a = RZero THEN ErrV("ZeroDivisionError")
+                       ELSE Guard(SDiv(x.a, y.a), NumV(SDiv(x.a, y.a)))
 Bin(op, x, y) ==
+    IF IsN(x) /\ IsN(y) THEN NumBin(op, x, y) ELSE
     CASE op = "Add" -> Add(x, y, mode)
       [] op = "Sub" -> Sub(x, y, mode)
       [] op = "Mul" -> IF IsQ(x) /\ IsN(y) THEN MulNum(x, y, mode)
@@ -62,7 +70,10 @@ Expected(ev) ==
       [] ev.op = "Neg"      -> Neg(regs[ev.x], mode)
       [] ev.op = "Abs"      -> AbsQ(regs[ev.x], mode)
       [] ev.op = "Cmp"      -> Cmp(ev.c, regs[ev.x], regs[ev.y])
-      [] ev.op = "Pow"      -> Pow(regs[ev.x], ev.n, mode)
+      [] ev.op = "Pow"      -> IF IsN(regs[ev.x])
+                               THEN (IF ev.n < 0 /\ regs[ev.x].a = RZero THEN ErrV("ZeroDivisionError")
+                                     ELSE Guard(SPowI(regs[ev.x].a, ev.n), NumV(SPowI(regs[ev.x].a, ev.n))))
+                               ELSE Pow(regs[ev.x], ev.n, mode)
       [] ev.op = "Quantize" -> Quantize(regs[ev.x], regs[ev.y], ev.rm, mode)
       [] ev.op = "Sum"      -> SumQ([j \in DOMAIN ev.rs |-> regs[ev.rs[j]]], mode)
 
